@@ -279,9 +279,14 @@ func (g *GW) Post(body []byte, contentType string) (int, []byte) {
 
 // Do sends one operation and decodes the {data, errors} envelope.
 func (g *GW) Do(op *world.Op) (int, map[string]interface{}, error) {
-	payload := map[string]interface{}{"query": g.W.OpText(op), "variables": op.VarsToGo()}
-	if op.Name != "" {
-		payload["operationName"] = op.Name
+	return g.DoText(g.W.OpText(op), op.VarsToGo(), op.Name)
+}
+
+// DoText sends an operation given as text.
+func (g *GW) DoText(text string, vars map[string]interface{}, opName string) (int, map[string]interface{}, error) {
+	payload := map[string]interface{}{"query": text, "variables": vars}
+	if opName != "" {
+		payload["operationName"] = opName
 	}
 	b, _ := json.Marshal(payload)
 	st, body := g.Post(b, "application/json")
